@@ -961,15 +961,16 @@ func _recover(n *node) {
 func _panic(n *node) {
 	value := genValue(n.child[1])
 
-	n.exec = func(f *frame) bltn {
-		v := value(f)
+	// The wrapper handles "defer panic(v)": the panic is raised when the function returns.
+	genBuiltinDeferWrapper(n, []func(*frame) reflect.Value{value}, nil, func(args []reflect.Value) []reflect.Value {
+		v := args[0]
 		if !v.IsValid() || !v.CanInterface() {
 			panic(v)
 		}
 		// Panic with the value itself, as seen when the statement is executed, so that
 		// recover returns it, and Eval reports it, with its own type.
 		panic(v.Interface())
-	}
+	})
 }
 
 func genBuiltinDeferWrapper(n *node, in, out []func(*frame) reflect.Value, fn func([]reflect.Value) []reflect.Value) {
